@@ -1,6 +1,7 @@
 package main
 
 import (
+	"math/big"
 	"fmt"
 	"sync"
 	"go/constant"
@@ -195,6 +196,7 @@ type FuncVC struct {
 	lenient bool
 	inert bool
 	replayTemplate string
+	fp             bool // `flag fp`: float32/float64 are SMT FloatingPoint values in this function
 	appendOrd      map[ssa.Value]int
 	mentions       map[string]bool
 	iterInit       map[string]bool
@@ -238,6 +240,45 @@ func (fv *FuncVC) declare(name string, s Sort) {
 	fv.declared[name] = true
 	fv.ensureSort(s)
 	fv.decls = append(fv.decls, fmt.Sprintf("(declare-const %s %s)", name, s.smt(fv.Mode)))
+}
+
+// fpDefine: a defined (not uninterpreted) float operation or constant (`flag fp`).
+func (fv *FuncVC) fpDefine(name string, args []string, ret string, body string) {
+	if fv.declared[name] {
+		return
+	}
+	fv.declared[name] = true
+	var ps []string
+	for i, a := range args {
+		ps = append(ps, fmt.Sprintf("(x%d %s)", i, a))
+	}
+	fv.decls = append(fv.decls, fmt.Sprintf("(define-fun %s (%s) %s %s)", name, strings.Join(ps, " "), ret, body))
+}
+
+// fpLiteral: the exact rational value of a Go constant rounded to nearest even into the format.
+func fpLiteral(v constant.Value, w int) string {
+	eb, sb := 11, 53
+	if w == 32 {
+		eb, sb = 8, 24
+	}
+	r, _ := new(big.Rat).SetString(constant.ToFloat(v).ExactString())
+	if r == nil {
+		f, _ := constant.Float64Val(v)
+		r = new(big.Rat).SetFloat64(f)
+	}
+	num, den := r.Num(), r.Denom()
+	lit := fmt.Sprintf("(/ %s.0 %s.0)", new(big.Int).Abs(num).String(), den.String())
+	if num.Sign() < 0 {
+		lit = "(- " + lit + ")"
+	}
+	return fmt.Sprintf("((_ to_fp %d %d) RNE %s)", eb, sb, lit)
+}
+
+func fpDims(w int) (int, int) {
+	if w == 32 {
+		return 8, 24
+	}
+	return 11, 53
 }
 
 func (fv *FuncVC) declareFun(name string, args []string, ret string) {
@@ -385,7 +426,17 @@ func (fv *FuncVC) ensureSort(s Sort) {
 		fv.sortDecls = append(fv.sortDecls, fmt.Sprintf("(declare-datatypes ((%[1]s 0)) (((mk_%[1]s (%[1]s_len %[2]s) (%[1]s_arr (Array %[2]s %[3]s)) (%[1]s_off %[2]s) (%[1]s_base Int) (%[1]s_cap %[2]s)))))", key, idx, s.Elem.smt(fv.Mode)))
 	case KIface:
 		fv.sortDecls = append(fv.sortDecls, "(declare-datatypes ((Iface 0)) (((mk_Iface (Iface_tag Int) (Iface_ref Int)))))")
-	case KFloat, KOpaque:
+	case KFloat:
+		if fv.fp {
+			eb, sb := 11, 53
+			if s.W == 32 {
+				eb, sb = 8, 24
+			}
+			fv.sortDecls = append(fv.sortDecls, fmt.Sprintf("(define-sort %s () (_ FloatingPoint %d %d))", key, eb, sb))
+		} else {
+			fv.sortDecls = append(fv.sortDecls, fmt.Sprintf("(declare-sort %s 0)", key))
+		}
+	case KOpaque:
 		fv.sortDecls = append(fv.sortDecls, fmt.Sprintf("(declare-sort %s 0)", key))
 	case KStruct:
 		panic("ensureSort: struct sorts are declared through ensureStruct: " + s.Name)
@@ -962,6 +1013,11 @@ func (fv *FuncVC) constVal(c *ssa.Const) Term {
 	case KFloat:
 		f, _ := constant.Float64Val(c.Value)
 		name := "fconst_" + sanitize(strings.NewReplacer("+", "p", "-", "m", ".", "d").Replace(fmt.Sprintf("%d_%g", s.W, f)))
+		if fv.fp {
+			fv.ensureSort(s)
+			fv.fpDefine(name, nil, s.smt(fv.Mode), fpLiteral(c.Value, s.W))
+			return Term{S: name, Sort: s}
+		}
 		fv.declare(name, s)
 		return Term{S: name, Sort: s}
 	}
